@@ -429,7 +429,7 @@ def part_b(ctx, res):
         if len(heads) == 1 and not net.errors:
             cs0 = net.nodes[0].chain_manager.coinstate
             u = cs0.unspent_transaction_outs_by_hash[cs0.current_chain_hash]
-            sp = [(r, o) for r, o in u.items() if o.public_key.public_key in keys.pks]
+            sp = [(r, o) for r, o in u.items() if o.public_key.public_key in keys.pks and o.value > 1]
             if sp:
                 r, o = sp[0]
                 tx = chain.make_tx(keys, u, [r], [(o.value - 1, 1)])
